@@ -63,6 +63,7 @@ class ProtocolDriver:
         time_keeper=None,
         fail_weight=1,
         sparse_reports=False,
+        early_complete=False,
     ):
         self.sched = sched
         self.t = t
@@ -76,6 +77,7 @@ class ProtocolDriver:
         self.allow_fail = allow_fail
         self.fail_weight = fail_weight
         self.sparse_reports = sparse_reports
+        self.early_complete = early_complete
         self.time_keeper = time_keeper
         self.trials = {}  # id -> Trial
         self.running = {}  # id -> dict(level=last reported level, run=run index)
@@ -211,7 +213,8 @@ class ProtocolDriver:
             self.n_pauses += 1
         elif dec == "CONTINUE":
             cap = self.level_cap_fn(trial.config)
-            if level >= cap:
+            # a training script may also end on its own before the maximum resource (early convergence)
+            if level >= cap or (self.early_complete and self.t.chance(1, 8)):
                 self.sched.on_trial_complete(trial, dict(result))
                 del self.running[tid]
                 self.completed.add(tid)
